@@ -182,9 +182,23 @@ func cmdCheck(args []string) {
 		}
 		return false
 	}
+	// only obligations whose failure would be a violation are worth the long timeouts (in -update-ledger mode: all)
+	var preLedger Ledger
+	readJSON(filepath.Join(root, "ledger", *prop+".json"), &preLedger)
+	preClauses := map[string]bool{}
+	for name := range preLedger.Obligations {
+		preClauses[clauseOf(name)] = true
+	}
+	matters := func(o *Obligation) bool {
+		if *update {
+			return true
+		}
+		_, in := preLedger.Obligations[o.Name]
+		return in || preClauses[clauseOf(o.Name)] || preLedger.Verified[o.Fn]
+	}
 	var retry []*Obligation
 	for _, o := range obls {
-		if !oblOK(o) && !o.Vacuity && o.Result != "sat" && !o.Evaluated && !expectedFail(o.Name) {
+		if !oblOK(o) && !o.Vacuity && o.Result != "sat" && !o.Evaluated && !expectedFail(o.Name) && matters(o) {
 			retry = append(retry, o)
 		}
 	}
